@@ -1,9 +1,103 @@
-import ScriggoV.Model.Lexer
-import ScriggoV.Spec.Position
-/-! # C21 — build errors point at a real location (placeholder; theorems follow) -/
-namespace ScriggoV.Props.C21
-open ScriggoV ScriggoV.Lexer
+import ScriggoV.Lemmas.LexerPos
+import ScriggoV.Props.C04
+/-! # C21 — build errors point at a real location in the reported file
 
-theorem placeholder : True := trivial
+The part of the property that lives in the lexer: the line and column the lexer attaches to a
+token (and to its own errors) are those of the token's start offset, as specified by
+`Spec.Position.lineCol`. Offsets are covered by C04's `spans_partition` (re-exported here as
+`offsets_in_range`).
+
+Proved for all inputs (`_partial`: the sub-scanners named in each theorem):
+* `walk_positions`           the byte walk shared by `lexComment`, `skipRawContent`, CDATA sections
+                             and `/* */` comments advances line and column exactly as the specification;
+* `lexComment_positions`     a `{# … #}` comment (nested, multi-line, any bytes) gets the position of
+                             its start offset and leaves the lexer at the position of its end;
+* `skipRawContent_positions` the content of `{% raw %}` leaves the lexer at the right position.
+Covered by the correspondence harness and the Go oracle only: the main loop of `scan` with its
+contexts, `scanTag`/`scanAttribute`, the Markdown cases, `lexCode` and its literal lexers.
+
+The full statement (every token of every scan) is false of the code: `FullStatement` is refuted
+by `"\n\r{{a}}"` (LF CR is read as one line terminator, known finding `lf-cr-column`). -/
+namespace ScriggoV.Props.C21
+open ScriggoV ScriggoV.Lexer ScriggoV.Gen.LexTables ScriggoV.Spec.Position
+
+/-- the position of a token is the position of its start offset -/
+def TokPosOK (src : Bytes) (t : Tok) : Bool := (t.line, t.col) == lineCol src t.start.toNat
+
+/-- every non-empty token of every template scan carries the line and column of its start offset -/
+def FullStatement : Prop :=
+  ∀ (U : Unicode) (format : Nat) (nps : Bool) (src : Bytes) (toks : List Tok) (e : Option LexErr),
+    scanTemplate U format nps src = .ok (toks, e) → ∀ t ∈ toks, 0 < t.txtLen → TokPosOK src t = true
+
+/-- LF CR `{{a}}`: the `{{` at offset 2 is reported at 2:1, its offset is 2:2 -/
+def lfcr : Bytes := [0x0a, 0x0d, 0x7b, 0x7b, 0x61, 0x7d, 0x7d]
+
+def allTokPos (src : Bytes) (r : Except Fault (List Tok × Option LexErr)) : Bool :=
+  match r with
+  | .ok (toks, _) => toks.all fun t => t.txtLen == 0 || TokPosOK src t
+  | .error _ => false
+
+theorem lfcr_bad : allTokPos lfcr (scanTemplate C04.asciiUnicode FormatHTML false lfcr) = false := by decide +kernel
+
+theorem fullStatement_false : ¬ FullStatement := by
+  intro h
+  have hb := lfcr_bad
+  obtain ⟨toks, e, hs⟩ := C04.scanWith_total { text := lfcr, tmpl := true, noParseShow := false, U := C04.asciiUnicode } FormatHTML
+  have hs' : scanTemplate C04.asciiUnicode FormatHTML false lfcr = .ok (toks, e) := hs
+  rw [hs'] at hb
+  simp only [allTokPos] at hb
+  have : toks.all (fun t => t.txtLen == 0 || TokPosOK lfcr t) = true := by
+    rw [List.all_eq_true]
+    intro t ht
+    rcases Nat.eq_zero_or_pos t.txtLen with hz | hp
+    · simp [hz]
+    · simp [h _ _ _ _ _ _ hs' t ht hp]
+  rw [this] at hb; cases hb
+
+/-- offsets: every token of a scan lies inside the source (C04 `spans_partition`) -/
+theorem offsets_in_range (U : Unicode) (format : Nat) (nps : Bool) (src : Bytes) :
+    ∃ toks e, scanTemplate U format nps src = .ok (toks, e) ∧ C04.SpansOK src.length toks :=
+  C04.spans_partition U format nps src
+
+/-- the specification's position of an offset, for a text without a leading BOM, is the
+`advance` of the bytes before it -/
+theorem lineCol_eq_advance {src : Bytes} (h : hasBOM src = false) (off : Nat) :
+    lineCol src off = advance (src.take off) (1, 1) := lineCol_of_noBOM h off
+
+/-- `walk_positions` (partial: the byte walk): if the lexer's line and column are those of
+offset `base + i`, after walking `n` bytes they are those of offset `base + i + n` — for every
+byte string, whatever the bytes (newlines, multi-byte characters, invalid UTF-8) -/
+theorem walk_positions_partial (E : Env) (n i : Nat) (st st' : St) (h : walk E n i st = .ok st')
+    (hpos : PosAt E st (st.base + i)) : PosAt E st' (st.base + i + n) :=
+  walkCode_posAt n i st st' h hpos
+
+/-- `lexComment_positions` (partial: `lexComment`): entered at `{#` with the lexer's position
+right, the comment token carries the line and column of its start offset and the lexer's
+position is right after the comment -/
+theorem lexComment_positions_partial (E : Env) (st st' : St) (hb : st.base ≤ E.text.length)
+    (h0 : peek E st 0 = some 0x7b) (h1 : peek E st 1 = some 0x23) (hpos : PosAt E st st.base)
+    (h : lexComment E st = .ok (st', none)) :
+    PosAt E st' st'.base ∧
+    ∃ tok, st'.toks = tok :: st.toks ∧ (tok.line, tok.col) = advance (E.text.take st.base) (1, 1) ∧ tok.start = st.base :=
+  lexComment_posAt hb h0 h1 hpos h
+
+/-- `skipRawContent_positions` (partial: `skipRawContent` with `endRawIndex`) -/
+theorem skipRawContent_positions_partial (E : Env) (st st' : St) (m : Bytes) (p : Nat) (hpos : PosAt E st st.base)
+    (h : skipRawContent E st m = .ok (st', p)) : PosAt E st' (st'.base + p) :=
+  skipRawContent_posAt hpos h
+
+/-- non-vacuity: a multi-line nested comment followed by a show; the comment is at 1:1 and the
+`{{` after it at 3:4 — the positions of offsets 0 and 17 -/
+def sample : Bytes := strBytes "{# a\n{# b #}\nc #}{{ x }}"
+
+example : (match scanTemplate C04.asciiUnicode FormatHTML false sample with
+    | .ok (toks, _) => toks.map (fun t => (t.typ, t.start, t.line, t.col))
+    | .error _ => []) =
+    [(tokenComment, 0, 1, 1), (tokenLeftBraces, 17, 3, 5), (tokenIdentifier, 20, 3, 8),
+     (tokenRightBraces, 22, 3, 10), (tokenEOF, 24, 3, 12)] := by decide +kernel
+
+example : lineCol sample 17 = (3, 5) := by decide +kernel
+
+example : allTokPos sample (scanTemplate C04.asciiUnicode FormatHTML false sample) = true := by decide +kernel
 
 end ScriggoV.Props.C21
